@@ -35,20 +35,20 @@ func (k Keeper) removeValidatorTokens(ctx sdk.Ctx, v types.Validator, tokensToRe
 
 // get the current staked validators sorted by power-rank
 func (k Keeper) getStakedValidators(ctx sdk.Ctx) types.Validators {
+	// MaxValidators is a governance-controlled uint64: it bounds the walk, it is not a size to allocate or to
+	// squeeze into an int
 	maxValidators := k.MaxValidators(ctx)
-	validators := make([]types.Validator, maxValidators)
+	validators := make([]types.Validator, 0)
 	iterator := k.stakedValsIterator(ctx)
 	defer iterator.Close()
-	i := 0
-	for ; iterator.Valid() && i < int(maxValidators); iterator.Next() {
+	for ; iterator.Valid() && uint64(len(validators)) < maxValidators; iterator.Next() {
 		address := iterator.Value()
 		validator := k.mustGetValidator(ctx, address)
 		if validator.IsStaked() {
-			validators[i] = validator
-			i++
+			validators = append(validators, validator)
 		}
 	}
-	return validators[:i] // trim
+	return validators
 }
 
 // returns an iterator for the current staked validators
@@ -65,7 +65,7 @@ func (k Keeper) IterateAndExecuteOverStakedVals(
 	iterator := sdk.KVStoreReversePrefixIterator(store, types.StakedValidatorsKey)
 	defer iterator.Close()
 	i := int64(0)
-	for ; iterator.Valid() && i < int64(maxValidators); iterator.Next() {
+	for ; iterator.Valid() && uint64(i) < maxValidators; iterator.Next() {
 		address := iterator.Value()
 		validator := k.mustGetValidator(ctx, address)
 		if validator.IsStaked() {
